@@ -805,8 +805,14 @@ impl EncryptedKeyStorageManager {
             file.flush().map_err(P2PError::Io)?;
         }
 
+        #[cfg(feature = "verif-hooks")]
+        crate::verif_hooks::c18::keystore_crash_point("tmp-written", &self.storage_path);
+
         // Atomic rename
         std::fs::rename(&temp_path, &self.storage_path).map_err(P2PError::Io)?;
+
+        #[cfg(feature = "verif-hooks")]
+        crate::verif_hooks::c18::keystore_crash_point("renamed", &self.storage_path);
 
         Ok(())
     }
